@@ -1614,4 +1614,28 @@ theorem meas_released {c : Cfg} {st : St} (hi : Inv c st) {h : Nat} {q : Handle}
     run_meas_free_spec (hi1.bound _ hmem) ((hm _).mpr hmem))).2
   simpa using this
 
+/-! ### several connections -/
+
+theorem runJ_proj (cs : Cfg × Cfg) : ∀ (h : List (Bool × Op)) (s : St × St),
+    runJ cs s h = (foldOps cs.1 s.1 (projOps false h), foldOps cs.2 s.2 (projOps true h)) := by
+  intro h
+  induction h with
+  | nil => intro s; rfl
+  | cons e es ih =>
+    intro s
+    obtain ⟨i, op⟩ := e
+    cases i with
+    | true => simp only [runJ, applyJ, if_true, ih, projOps]; rfl
+    | false => simp only [runJ, applyJ, Bool.false_eq_true, if_false, ih, projOps]; rfl
+
+theorem inv_foldOps {c : Cfg} : ∀ (ops : List Op) (st : St), Inv c st → good c st ops = true →
+    Inv c (foldOps c st ops) := by
+  intro ops
+  induction ops with
+  | nil => intro st hi _; exact hi
+  | cons op ops ih =>
+    intro st hi hg
+    simp only [good, Bool.and_eq_true] at hg
+    exact ih _ (inv_apply hi hg.1).1 hg.2
+
 end NQ.QM
